@@ -17,6 +17,7 @@ import (
 	"fmt"
 	"math/rand"
 	"net"
+	"runtime"
 	"runtime/debug"
 	"sort"
 	"strings"
@@ -852,6 +853,15 @@ func init() {
 				break // the production process would be gone
 			}
 			if _, dead := o["blocked"]; dead {
+				break
+			}
+			// a goroutine left behind by the event that allocates without bound (heap far beyond anything a
+			// handful of sessions needs): the agent would run out of memory
+			var ms runtime.MemStats
+			runtime.ReadMemStats(&ms)
+			if ms.HeapAlloc > 768<<20 {
+				o["runaway"] = ms.HeapAlloc
+				verifAbort = "memory runaway after an l1 event"
 				break
 			}
 		}
